@@ -639,7 +639,7 @@ pub fn check(ctx: &mut Ctx) {
     let n = ctx.tier.pick(120, 3_000);
     drive(ctx, "many-regexes", n, 120, &|t| gen::big_group_case(t), &check_big);
     let n = ctx.tier.pick(80_000, 1_000_000);
-    drive(ctx, "incremental", n, 900, &|t| gen::net_case(t, &NetCfg { max_rules: 20, ..Default::default() }), &check_incremental);
+    drive(ctx, "incremental", n, 900, &|t| gen::net_case(t, &NetCfg { max_rules: 20, opt: OptCfg { allow_badfilter: false, ..Default::default() }, ..Default::default() }), &check_incremental);
 }
 
 pub fn replay(ctx: &mut Ctx, v: &Value) {
